@@ -428,7 +428,25 @@ pub struct D6<'a> {
 #[derive(shred::SystemData)]
 pub struct D11<'a>(pub Write<'a, R2>, pub Option<Read<'a, R3>>, pub PhantomData<&'a ()>);
 
-pub const N_MENU: u8 = 14;
+/// A derived bundle whose name begins like a library type, nested in another derived bundle.
+#[derive(shred::SystemData)]
+pub struct ReadWriteCounters<'a> {
+    pub w: Write<'a, R4>,
+}
+#[derive(shred::SystemData)]
+pub struct D14<'a> {
+    pub inner: ReadWriteCounters<'a>,
+    pub r: Read<'a, R0>,
+}
+
+/// A generic derived bundle, used with two different type arguments (menu 15 and 16).
+#[derive(shred::SystemData)]
+pub struct GWatch<'a, T: shred::Resource> {
+    pub v: Read<'a, T>,
+    pub z: Option<Read<'a, R7>>,
+}
+
+pub const N_MENU: u8 = 17;
 
 /// The harness's *own* table of what each menu entry reads / writes (not derived from the library).
 pub fn menu_slots(id: u8) -> (Vec<Slot>, Vec<Slot>) {
@@ -447,6 +465,9 @@ pub fn menu_slots(id: u8) -> (Vec<Slot>, Vec<Slot>) {
         11 => (vec![s(3)], vec![s(2)]),
         12 => (vec![s(7)], vec![]),
         13 => (vec![s(1)], vec![s(5)]),
+        14 => (vec![s(0)], vec![s(4)]),
+        15 => (vec![s(2), s(7)], vec![]),
+        16 => (vec![s(6), s(7)], vec![]),
         _ => panic!("menu id"),
     }
 }
@@ -478,6 +499,9 @@ pub type T10<'a> = (Read<'a, R5>, Read<'a, R6>, Read<'a, R7>);
 pub type T11<'a> = D11<'a>;
 pub type T12<'a> = Read<'a, R7>;
 pub type T13<'a> = (Write<'a, R5>, Read<'a, R1>);
+pub type T14<'a> = D14<'a>;
+pub type T15<'a> = GWatch<'a, R2>;
+pub type T16<'a> = GWatch<'a, R6>;
 
 menu!(M0, 0, T0<'a>);
 menu!(M1, 1, T1<'a>);
@@ -493,6 +517,36 @@ menu!(M10, 10, T10<'a>);
 menu!(M11, 11, T11<'a>);
 menu!(M12, 12, T12<'a>);
 menu!(M13, 13, T13<'a>);
+menu!(M14, 14, T14<'a>);
+menu!(M15, 15, T15<'a>);
+menu!(M16, 16, T16<'a>);
+
+impl<'a> SData<'a> for T14<'a> {
+    fn reads_each(&self, f: &mut dyn FnMut(Slot, &dyn Pay)) {
+        f(s(0), &*self.r);
+    }
+    fn writes_each(&mut self, f: &mut dyn FnMut(Slot, &mut dyn Pay)) {
+        f(s(4), &mut *self.inner.w);
+    }
+}
+impl<'a> SData<'a> for T15<'a> {
+    fn reads_each(&self, f: &mut dyn FnMut(Slot, &dyn Pay)) {
+        f(s(2), &*self.v);
+        if let Some(z) = &self.z {
+            f(s(7), &**z);
+        }
+    }
+    fn writes_each(&mut self, _f: &mut dyn FnMut(Slot, &mut dyn Pay)) {}
+}
+impl<'a> SData<'a> for T16<'a> {
+    fn reads_each(&self, f: &mut dyn FnMut(Slot, &dyn Pay)) {
+        f(s(6), &*self.v);
+        if let Some(z) = &self.z {
+            f(s(7), &**z);
+        }
+    }
+    fn writes_each(&mut self, _f: &mut dyn FnMut(Slot, &mut dyn Pay)) {}
+}
 
 impl<'a> SData<'a> for T0<'a> {
     fn reads_each(&self, _f: &mut dyn FnMut(Slot, &dyn Pay)) {}
@@ -619,6 +673,9 @@ macro_rules! with_menu {
             11 => { type $M = $crate::sys::M11; $e }
             12 => { type $M = $crate::sys::M12; $e }
             13 => { type $M = $crate::sys::M13; $e }
+            14 => { type $M = $crate::sys::M14; $e }
+            15 => { type $M = $crate::sys::M15; $e }
+            16 => { type $M = $crate::sys::M16; $e }
             _ => unreachable!("menu index"),
         }
     };
